@@ -355,6 +355,89 @@ def aligned_zero_alloc(P, fn, depth=0):
                     return dict(sub, site=i, how='through ' + i.callee)
     return None
 
+
+# ---------------------------------------------------------------- list capacities (R02g, R03e)
+def min_nonneg(p, lows):
+    """polynomial p over atoms with known lower bounds `lows` {atom: lower bound}: True when every non-constant coefficient is >= 0,
+    no other atom occurs and the value at the lower bounds is >= 0"""
+    tot = 0
+    for mono, c in p.items():
+        if mono == ():
+            tot += c
+        elif len(mono) == 1 and mono[0] in lows and c >= 0:
+            tot += c * lows[mono[0]]
+        else:
+            return False
+    return tot >= 0
+
+def rule_list_capacity(ctx, P, r, fname, allocs, need, what, lows_of):
+    """the buffer of a -1 terminated index list has room for the most entries it can receive plus the terminator.
+    allocs: callee names that allocate it (size in bytes = first argument); need(pc) -> polynomial number of entries incl. the terminator"""
+    from ..poly import PolyCtx, Poly
+    f = P.fn(fname)
+    C = Canon(P, f)
+    pc = PolyCtx(P, f, C)
+    n = 0
+    for a in [i for i in f.insts() if i.op == 'call' and i.callee in allocs and i.res]:
+        cap = PolyCtx.div(pc.val(a.ops[0]), 4)
+        want = need(pc, a)
+        if want is None:
+            continue
+        n += 1
+        inst = f'{fname}: {what} allocated at line {a.line} holds every entry and the terminator'
+        cv = cap.const_value()
+        if (cv is not None and cv >= 33) or min_nonneg(cap - want, lows_of(pc)):
+            r.ok(inst, func=f.name, loc=a.loc, facts={'capacity': str(cap), 'needed': str(want)})
+        elif cv is not None and cv >= 32:
+            r.ok(inst + ' (library-wide limit of 32 fragments)', func=f.name, loc=a.loc, facts={'capacity': str(cap)})
+        else:
+            r.fail(inst, func=f.name, sig=f'list capacity {str(cap)[:40]} < entries + terminator', loc=a.loc,
+                   msg=f'the {what} has room for {cap} ints but can receive {want} (entries plus the -1 terminator): with the list full the terminator / the scan runs past the allocation')
+    return n
+
+
+# ---------------------------------------------------------------- adapters forward (R02h)
+FORWARDING_BACKENDS = ('@backend_liberasurecode_rs_vand', '@backend_flat_xor_hd')      # the null backend codes nothing
+
+def rule_forwarders(ctx, P, r):
+    """the adapters of the built-in codes (rs_vand, flat_xor_hd, null) are forwarders: encode / decode / reconstruct hand the caller's
+    arrays to the plug-in function on every path and do not touch the fragment buffers themselves.  A shortcut in an adapter
+    (an early `return 0`, a hand-written fast path) is a second decoder that none of the rules on the coders sees."""
+    from ..cfg import reaches_without
+    cg = callgraph.get(P)
+    n = 0
+    for be in FORWARDING_BACKENDS:
+        c = cg.common.get(be)
+        if c is None:
+            continue
+        t = cg.op_tables[c['ops']]
+        for slot in ('encode', 'decode', 'reconstruct'):
+            f = P.fns.get(t[slot])
+            if f is None:
+                continue
+            fwd = [i for i in f.insts() if i.op == 'call' and ((i.callee or '').startswith('%') or (i.callee in P.fns and P.fns[i.callee].mod is not f.mod))
+                   and f.params[1][1] in i.ops and f.params[2][1] in i.ops]
+            inst = f'{f.name}: forwards data[] / parity[] to the plug-in on every path and does nothing else with them'
+            n += 1
+            if not fwd:
+                r.fail(inst, func=f.name, sig='adapter does not forward', loc=f.mod.src, msg=f'{f.name} never hands data[] and parity[] to a function of its descriptor')
+                continue
+            skip = reaches_without(f, f.entry, lambda i_: i_.op == 'ret', lambda i_: any(i_ is x for x in fwd), 0)
+            A, _ = derived_pointers(f, [f.params[1][1], f.params[2][1]])
+            elems = [i.res for i in f.insts() if i.op == 'load' and i.ops[0] in A and i.ty and i.ty.endswith('*')]
+            B, _ = derived_pointers(f, elems) if elems else (set(), None)
+            touch = [i for i in f.insts() if (i.op == 'store' and (i.ops[1] in B or i.ops[1] in A)) or
+                     (i.op == 'call' and not any(i is x for x in fwd) and not (i.callee or '').startswith('@llvm.dbg') and any(isinstance(a, str) and (a in B) for a in i.ops))]
+            if skip is not None:
+                r.fail(inst, func=f.name, sig='adapter returns without calling the coder', loc=skip.loc,
+                       msg=f'{f.name} can return (line {skip.line}) without having called the plug-in {slot} function: for those inputs nothing is decoded / encoded although the caller is told 0 or gets unprocessed buffers')
+            elif touch:
+                r.fail(inst, func=f.name, sig='adapter works on fragment buffers itself', loc=touch[0].loc,
+                       msg=f'{f.name} reads / writes fragment buffers itself (line {touch[0].line}) instead of leaving the arithmetic to the coder behind its descriptor')
+            else:
+                r.ok(inst, func=f.name, loc=fwd[0].loc)
+    return n
+
 # ---------------------------------------------------------------- R13e
 FRONT_UNITS = ('src/erasurecode.c', 'src/erasurecode_helpers.c', 'src/erasurecode_preprocessing.c', 'src/erasurecode_postprocessing.c')
 
@@ -653,6 +736,13 @@ def rule_validation_gates(ctx, P, r, ebad):
         consumers = [i for i in f.insts() if i.op == 'call' and i.callee in ('@fragments_to_string', '@get_fragment_partition', '@is_invalid_fragment')
                      and any(o in A for o in i.ops)]
         loads = [i for i in f.insts() if i.op == 'load' and i.ops[0] in A]
+        # whatever else is handed one of the caller's fragments (a size helper, an index helper, ...) reads header fields too
+        elems_ = [i.res for i in loads if i.ty == 'i8*']
+        B_, _b = derived_pointers(f, elems_) if elems_ else (set(), None)
+        for i in f.insts():
+            if i.op == 'call' and i not in consumers and i.callee not in ('@is_invalid_fragment_header', '@free') and i.callee not in LOGFNS \
+                    and not (i.callee or '').startswith('@llvm.') and any(isinstance(o, str) and o in B_ for o in i.ops):
+                consumers.append(i)
         vcalls = [i for i in f.insts() if i.op == 'call' and i.callee == '@is_invalid_fragment_header']
         if not consumers:
             raise AnalysisBroken(f'anchor vanished: no consumer of available_fragments in {fname}')
@@ -692,7 +782,6 @@ def rule_validation_gates(ctx, P, r, ebad):
                        msg=f'the edge taken for an invalid header may return {sorted(map(str, vals))} instead of {-ebad}')
     # single-fragment query
     f, fp = param_by_name(ctx, P, 'liberasurecode_get_fragment_metadata', 'fragment')
-    from ..vflow import derived_pointers
     A, _ = derived_pointers(f, [f.params[fp][1]])
     vcalls = [i for i in f.insts() if i.op == 'call' and i.callee == '@is_invalid_fragment_header' and any(o in A for o in i.ops)]
     cons = [i for i in f.insts() if (i.op == 'load' and i.ops[0] in A) or (i.op == 'call' and i is not (vcalls[0] if vcalls else None)
